@@ -6,9 +6,11 @@ Model/StyleState.lean — the STATE MACHINE of magpylib's defaults / style objec
   * `MagicProperties.__setattr__` (frozen object)          ↦ `setAttr`        (property / other attribute / AttributeError)
   * the property setters: plain leaf with its validator, sub-object through `validate_property_class`, the deprecated
     alias `Magnetization.size`, the string shorthand of `BaseStyle.description/legend`      ↦ `setProp`, `setLeafAt`
-  * `MagicProperties.update`                               ↦ `updateObj`  (= `mpUpdate` of Model/StyleNested plus validators,
-                                                              and WITH THE STATE AT THE MOMENT OF THE RAISE: the loop
-                                                              `for k, v in new_dict.items(): setattr(self, k, v)` is not atomic)
+  * `MagicProperties.update`                               ↦ `updateObj`  (= `mpUpdate` of Model/StyleNested plus validators;
+                                                              the loop `for k, v in new_dict.items(): setattr(self, k, v)`
+                                                              (`setAllS`, with the state at the moment of the raise) is wrapped
+                                                              since repo fix cea5f08 in a save / restore of the instance
+                                                              dictionary: a rejected update changes nothing)
   * `DefaultSettings.reset`, `DisplayStyle.reset`          ↦ `resetDefaults`, `resetStyle`
   * `BaseGeo.style` setter / `_validate_style`             ↦ `Op.setStyle`, `Op.setStyleObj`
   * a history                                              ↦ `step`, `run`
@@ -187,7 +189,11 @@ def updateObj (T : Tables) (props : List (Key × Schema)) (others : List Str) (c
       match updateNested (!matchProps) rno (.node cur) m with
       | .error e => (cur, .error (.ofErr e))
       | .ok (.leaf _) => (cur, .error .other)
-      | .ok (.node nd) => setAllS T props others cur nd
+      | .ok (.node nd) =>
+        -- repo fix cea5f08: `saved = dict(vars(self))` before the loop, put back on any exception — all or nothing
+        match setAllS T props others cur nd with
+        | (c, .ok u) => (c, .ok u)
+        | (_, .error e) => (cur, .error e)
 
 /-- run `f` on the sub-object `self.k1.….kn` (attribute access; AttributeError when a name is missing or a value
 that is not a property object is reached) and put the new state of the sub-object back -/
